@@ -117,7 +117,7 @@ def job_augmentation(E, rep, tier):
     rep.under_contract(*[BS + '.SDELogqp.' + n for n in ('__init__', 'f_diagonal', 'g_diagonal', 'f_and_g_diagonal', 'f_general', 'g_general', 'f_and_g_general')])
     for noise in ('diagonal', 'general', 'additive', 'scalar'):
         B, d = 2, 2
-        m = 1 if noise == 'scalar' else 2
+        m = 1 if noise == 'scalar' else (2 if noise == 'diagonal' else 3)      # d != m for the matrix noise types: no dimension coincidence
         S = X.setup(E, noise, 'ito', B, d, m, 'none')
         lq, _ = logqp_sde(E, S)
         tag = f'C18/SDELogqp[{noise}]'
